@@ -2480,7 +2480,7 @@ impl WasmGenerator {
             // Boolean operations (results are i32 in WASM, extended to i64 for register storage)
             // Operands can be f64 or i64; we check operand type to emit correct comparison.
             I::Eq(a, b) => {
-                let op_type = self.infer_value_type(a);
+                let op_type = self.comparison_operand_type(a, b);
                 self.emit_value_load_typed(a, op_type, func);
                 self.emit_value_load_typed(b, op_type, func);
                 if op_type == ValType::F64 {
@@ -2491,7 +2491,7 @@ impl WasmGenerator {
                 func.instruction(&W::F64ConvertI32U);
             }
             I::Ne(a, b) => {
-                let op_type = self.infer_value_type(a);
+                let op_type = self.comparison_operand_type(a, b);
                 self.emit_value_load_typed(a, op_type, func);
                 self.emit_value_load_typed(b, op_type, func);
                 if op_type == ValType::F64 {
@@ -2502,7 +2502,7 @@ impl WasmGenerator {
                 func.instruction(&W::F64ConvertI32U);
             }
             I::Lt(a, b) => {
-                let op_type = self.infer_value_type(a);
+                let op_type = self.comparison_operand_type(a, b);
                 self.emit_value_load_typed(a, op_type, func);
                 self.emit_value_load_typed(b, op_type, func);
                 if op_type == ValType::F64 {
@@ -2513,7 +2513,7 @@ impl WasmGenerator {
                 func.instruction(&W::F64ConvertI32U);
             }
             I::Le(a, b) => {
-                let op_type = self.infer_value_type(a);
+                let op_type = self.comparison_operand_type(a, b);
                 self.emit_value_load_typed(a, op_type, func);
                 self.emit_value_load_typed(b, op_type, func);
                 if op_type == ValType::F64 {
@@ -2524,7 +2524,7 @@ impl WasmGenerator {
                 func.instruction(&W::F64ConvertI32U);
             }
             I::Gt(a, b) => {
-                let op_type = self.infer_value_type(a);
+                let op_type = self.comparison_operand_type(a, b);
                 self.emit_value_load_typed(a, op_type, func);
                 self.emit_value_load_typed(b, op_type, func);
                 if op_type == ValType::F64 {
@@ -2535,7 +2535,7 @@ impl WasmGenerator {
                 func.instruction(&W::F64ConvertI32U);
             }
             I::Ge(a, b) => {
-                let op_type = self.infer_value_type(a);
+                let op_type = self.comparison_operand_type(a, b);
                 self.emit_value_load_typed(a, op_type, func);
                 self.emit_value_load_typed(b, op_type, func);
                 if op_type == ValType::F64 {
@@ -4429,6 +4429,23 @@ impl WasmGenerator {
 
     /// Infer the WASM ValType of a MIR value.
     /// Used to select the correct comparison instruction (F64 vs I64).
+    /// Operand type of a comparison: numbers are compared as f64 as soon as one side is a number, i.e. an f64
+    /// value or the address of an f64 tuple/record element (a `GetElement` result, which
+    /// `emit_value_load_typed` dereferences). Comparing such an address with the other side's bits, or two such
+    /// addresses with each other, is never meant.
+    fn comparison_operand_type(&self, a: &VPtr, b: &VPtr) -> ValType {
+        let is_number = |v: &VPtr| {
+            self.infer_value_type(v) == ValType::F64
+                || matches!(v.as_ref(), mir::Value::Register(r)
+                    if self.getelement_registers.get(r) == Some(&ValType::F64))
+        };
+        if is_number(a) || is_number(b) {
+            ValType::F64
+        } else {
+            ValType::I64
+        }
+    }
+
     fn infer_value_type(&self, value: &VPtr) -> ValType {
         match value.as_ref() {
             mir::Value::Register(reg_idx) => self
